@@ -20,7 +20,14 @@ import (
 	"golang.org/x/tools/go/ssa/ssautil"
 )
 
-const repoMod = "/repo/rolling-shutter"
+// repoMod is the module under analysis: /repo's current working tree. VERIF_REPO redirects the
+// analysis to a scratch copy (used only to try seeded patches without touching /repo).
+var repoMod = func() string {
+	if v := os.Getenv("VERIF_REPO"); v != "" {
+		return v
+	}
+	return "/repo/rolling-shutter"
+}()
 
 var verifDir = "/verif"
 
